@@ -14,6 +14,7 @@
 // case header: mode=<m> aolk=<0|1> sk=<enc> rk=<enc,..|-> rkid=<enc,..|-> auth=<enckey>:<encid>,..|- grid=<n>
 //              (grid: 1-based index of the configuration in the complete enumeration, 0 for a random case)
 // op:          req ep=<endpoint> hdr=<long|short|none> key=<enc>
+//              reconf mode=… aolk=… sk=… rk=… rkid=… auth=- grid=0   the access-key configuration is reloaded (no obs)
 // ext:         legacy <enckey> = <0|1>      (config.IsLegacyAPIKey, an external function for the model)
 //              authid <enckey> = <encid>    (what the stubbed /1/auth lookup answers for the key)
 // obs:         st=<ok|unauth|other:..> why=<-|unlisted|blank|nohdr|other> sent=<enc,..|->
@@ -54,7 +55,10 @@ import (
 
 type comp struct{}
 
-var endpoints = []string{"event", "batch", "otlp-traces-http", "otlp-logs-http", "otlp-traces-grpc", "otlp-logs-grpc"}
+// "v1-mw" is ONE instance of apiKeyProcessor built when the process starts (before any of the cases'
+// configurations is in force) in front of a handler that records the key it is handed; like the gRPC
+// servers it is kept across all configuration changes.
+var endpoints = []string{"event", "batch", "otlp-traces-http", "otlp-logs-http", "otlp-traces-grpc", "otlp-logs-grpc", "v1-mw"}
 
 // sendKeyModes is the list of modes the configuration accepts (validation rejects anything else):
 // the `choices` of AccessKeys.SendKeyMode in the embedded config metadata.
@@ -89,6 +93,8 @@ type world struct {
 	coll     *collect.MockCollector
 	traceSrv *route.TraceServer
 	logsSrv  *route.LogsServer
+	v1mw     http.Handler
+	mwKeys   []string // keys the handler behind the kept apiKeyProcessor instance was handed
 	mu       sync.Mutex
 	auth     map[string]string // key -> key ID answered by the stubbed /1/auth
 }
@@ -130,6 +136,13 @@ func getWorld() *world {
 		w.handler = route.VerifAuthHandler(w.router)
 		w.traceSrv = route.NewTraceServer(w.router)
 		w.logsSrv = route.NewLogsServer(w.router)
+		w.v1mw = route.VerifAuthAPIKeyProcessor(w.router, http.HandlerFunc(func(_ http.ResponseWriter, req *http.Request) {
+			k := req.Header.Get(types.APIKeyHeader)
+			if k == "" {
+				k = req.Header.Get(types.APIKeyHeaderShort)
+			}
+			w.mwKeys = append(w.mwKeys, k)
+		}))
 		theWorld = w
 	})
 	return theWorld
@@ -143,7 +156,8 @@ func (w *world) lookup(key string) (string, string, error) {
 
 // drain returns the API keys of everything that left the router since the last call.
 func (w *world) drain() []string {
-	var keys []string
+	keys := w.mwKeys
+	w.mwKeys = nil
 	for {
 		select {
 		case ev := <-w.up.Events:
@@ -436,7 +450,35 @@ func (comp) Gen(r *kit.Rng, maxLen int, tier string) kit.Case {
 		}
 	}
 	n := 8 + r.Intn(maxLen+1)
+	reconfAt := -1
+	if r.Chance(60) {
+		reconfAt = 1 + r.Intn(n-1) // reload the access-key configuration in the middle of the case
+	}
 	for i := 0; i < n; i++ {
+		if i == reconfAt {
+			mode2 := modes[r.Intn(len(modes))]
+			sk2 := sk
+			if r.Chance(40) {
+				sk2 = []string{"", ks.send, ks.uc}[r.Intn(3)]
+			}
+			rk2 := rk
+			if r.Chance(50) {
+				rk2 = nil
+				for _, k := range pool {
+					if r.Chance(50) {
+						rk2 = append(rk2, k)
+					}
+				}
+			}
+			rkid2 := rkid
+			if r.Chance(40) {
+				rkid2 = nil
+				if r.Chance(50) {
+					rkid2 = []string{ks.idListed}
+				}
+			}
+			ops = append(ops, "reconf "+header(mode2, r.Chance(60), sk2, rk2, rkid2, nil, 0))
+		}
 		hdr := "long"
 		switch r.Pick(80, 12, 8) {
 		case 1:
@@ -461,9 +503,7 @@ type runner struct {
 	sk string
 }
 
-func (comp) NewCase(h []string) kit.Runner {
-	w := getWorld()
-	w.drain()
+func applyConfig(w *world, h []string) config.AccessKeyConfig {
 	ak := config.AccessKeyConfig{
 		ReceiveKeys:          decList(kit.KV(h, "rk")),
 		ReceiveKeyIDs:        decList(kit.KV(h, "rkid")),
@@ -474,6 +514,13 @@ func (comp) NewCase(h []string) kit.Runner {
 	w.conf.Mux.Lock()
 	w.conf.GetAccessKeyConfigVal = ak
 	w.conf.Mux.Unlock()
+	return ak
+}
+
+func (comp) NewCase(h []string) kit.Runner {
+	w := getWorld()
+	w.drain()
+	ak := applyConfig(w, h)
 	w.mu.Lock()
 	w.auth = map[string]string{}
 	if a := kit.KV(h, "auth"); a != "-" && a != "" {
@@ -509,6 +556,14 @@ func whyOf(msg string) string {
 }
 
 func (r *runner) Do(op []string) (string, bool) {
+	if op[0] == "reconf" {
+		// the access-key configuration is reloaded while router, gRPC servers and the kept middleware
+		// instance keep running
+		ak := applyConfig(r.w, op[1:])
+		r.sk = ak.SendKey
+		r.w.conf.Reload()
+		return "", false
+	}
 	if op[0] != "req" {
 		return "bad-op", true
 	}
@@ -524,7 +579,7 @@ func (r *runner) Do(op []string) (string, bool) {
 	w.drain()
 	st, why := "", "-"
 	switch ep {
-	case "event", "batch", "otlp-traces-http", "otlp-logs-http":
+	case "event", "batch", "otlp-traces-http", "otlp-logs-http", "v1-mw":
 		var path, ct string
 		var body []byte
 		switch ep {
@@ -532,6 +587,8 @@ func (r *runner) Do(op []string) (string, bool) {
 			path, ct, body = "/1/events/ds1", "application/json", []byte(`{"f":1}`)
 		case "batch":
 			path, ct, body = "/1/batch/ds1", "application/json", []byte(`[{"data":{"f":1}}]`)
+		case "v1-mw":
+			path, ct, body = "/1/events/ds1", "application/json", []byte(`{"f":1}`)
 		case "otlp-traces-http":
 			path, ct, body = "/v1/traces", "application/protobuf", traceBody
 		default:
@@ -547,7 +604,11 @@ func (r *runner) Do(op []string) (string, bool) {
 			req.Header.Set(types.APIKeyHeaderShort, key)
 		}
 		rec := httptest.NewRecorder()
-		w.handler.ServeHTTP(rec, req)
+		if ep == "v1-mw" {
+			w.v1mw.ServeHTTP(rec, req)
+		} else {
+			w.handler.ServeHTTP(rec, req)
+		}
 		switch {
 		case rec.Code >= 200 && rec.Code < 300:
 			st = "ok"
